@@ -13,6 +13,8 @@ was copied, which text was written or appended):
                     character mutations on top
   MERGE-files       add() / remove() / unknown file types
   MERGE-findings    the dedicated small streams of the known findings
+  SPLICE-spec-<fmt> the specification of C04_splice (characters outside every span) executed
+                    against what the implementation wrote, for well-placed skip lists
 Oracle (implementation only): the staged file is compared again with the
 reference: no junk, no check errors, for mergeable formats nothing missing;
 every key carries the text of its expected source (localization iff it had an
@@ -804,6 +806,8 @@ def oracle_compare(chk, env, case, r, expect=None):
     rkeys, rtexts, rvals, rjunk = parse_file(r.name, r.refp)
     lkeys, ltexts, lvals, _ = parse_file(r.name, r.l10np)
     mkeys, mtexts, mvals, mjunk = parse_file(r.name, r.mergep)
+    if rjunk or len(rkeys) != len(set(rkeys)):
+        raise RuntimeError("harness bug: reference not clean: %r" % (r.ref_bytes,))
     bad = set(ekeys)
     if fmt == "po":
         bad = set()
@@ -921,9 +925,31 @@ def check_reference(fmt, env, ref_bytes):
         raise RuntimeError("harness bug: reference not clean for %s: %r" % (fmt, ref_bytes))
 
 
+def splice_oracle(chk, case, r, spl):
+    """C04_splice on the implementation: for skips inside the text, not empty and pairwise
+    identical or disjoint, what is written before the appended text is exactly the characters
+    of the localization outside every skipped span, once and in order"""
+    if r.exc is not None or not r.action or r.action[0] != 4 or not r.calls:
+        return
+    call = r.calls[-1]
+    spans = [tuple(s.span) for s in call["skips"]]
+    c = call["contents"]
+    if not all(isinstance(a, int) and isinstance(b, int) and 0 <= a < b <= len(c) for a, b in spans):
+        return
+    if any(not (x == y or x[1] <= y[0] or y[1] <= x[0]) for x in spans for y in spans):
+        return
+    writes = [t[1] for t in r.trace if t[0] == "write"]
+    body = "".join(writes[:len(spans) + 1])
+    want = "".join(ch for i, ch in enumerate(c) if not any(a <= i < b for a, b in spans))
+    if body != want:
+        chk.fail("splice-is-not-the-uncovered-characters", case, {"body": body, "expected": want})
+    spl.append((c, spans, body))
+
+
 def suite_format(chk, env, model, fmt, n):
     rng = chk.rng
     cases, impls, reqs = [], [], []
+    spl = []
     structured = mutated = 0
     for i in range(n):
         recs, used = gen_reference(rng, fmt)
@@ -945,12 +971,14 @@ def suite_format(chk, env, model, fmt, n):
             l10n_bytes = text.encode("utf-8")
             expect = expected_by_construction(fmt, recs, items)
             structured += 1
-        if i == 0:
+        if i % 25 == 0:
             check_reference(fmt, env, ref_bytes)
         case = make_case(fmt, ref_bytes, l10n_bytes, "mutated" if do_mut else "structured")
+        chk.hist("stream", case["stream"] + ":" + fmt)
         r = run_pair(env, fmt, ref_bytes, l10n_bytes)
         chk.count((fmt, ref_bytes, l10n_bytes))
         report(chk, env, case, r, expect)
+        splice_oracle(chk, case, r, spl)
         call = r.calls[-1] if r.calls else None
         chk.hist("skips_" + fmt, min(len(call["skips"]), 4) if call else "no-merge-call")
         chk.hist("action", (r.action or ["?"])[0] if r.exc is None else "raised")
@@ -965,11 +993,14 @@ def suite_format(chk, env, model, fmt, n):
                         "staged": None if r.merged is None else r.merged.decode("utf-8", "replace"),
                         "skips": [[s.span[0], s.span[1]] for s in call["skips"]],
                         "missing": [repr(k) for k in call["missing"]]})
-    chk.hist("stream", "structured:" + fmt)
     chk.notes.append(f"MERGE-{fmt}: {structured} structured, {mutated} mutated")
     if model:
         outs = model.call(reqs)
         chk.correspond("MERGE-" + fmt, cases, impls, outs)
+        if spl:
+            outs = model.call([(7, [s2l(c), [[a, b] for a, b in sp]]) for c, sp, _ in spl])
+            chk.correspond("SPLICE-spec-" + fmt, [{"contents": c, "spans": sp} for c, sp, _ in spl],
+                           [s2l(b) for _, _, b in spl], outs)
 
 
 def suite_unknown(chk, env, model, n):
